@@ -219,6 +219,9 @@ func (g *gate) Read(p []byte) (int, error) {
 			g.started[i] = true
 			done := make(chan struct{})
 			g.pending = done
+			// the main goroutine is in its read from here on: the cursor report the application goroutine
+			// asks for must come through this read (set before the goroutine can emit its query)
+			g.w.gateReading.Store(true)
 			go func() {
 				defer close(done)
 				defer func() { recover() }()
@@ -251,6 +254,19 @@ func (g *gate) Close() error { return nil }
 
 func runSession(w *world, sp Spec, dir string) (tr Trace) {
 	tr.ID = sp.ID
+	if hd := os.Getenv("RLV_HANGDIR"); hd != "" {
+		// debugging aid: a session still running after 6 seconds leaves the stacks of its goroutines behind
+		finished := make(chan struct{})
+		defer close(finished)
+		go func() {
+			select {
+			case <-finished:
+			case <-time.After(6 * time.Second):
+				buf := make([]byte, 1<<20)
+				os.WriteFile(hd+"/"+strings.ReplaceAll(sp.ID, "/", "_")+".txt", buf[:runtime.Stack(buf, true)], 0o644)
+			}
+		}()
+	}
 	if sp.Width == 0 {
 		sp.Width = 80
 	}
